@@ -116,6 +116,13 @@ def load(source, rows, tag):
     wnw = 10000.0 * rows[:, 3] / rows[:, 0] ** 2
     spec = {'instrument_wngrid': wn.copy(), 'instrument_wnwidth': wnw.copy(), 'instrument_wlgrid': 10000.0 / wn,
             'instrument_spectrum': rows[:, 1].copy(), 'instrument_noise': rows[:, 2].copy()}
+    # ... next to what the program stores about the model itself: the native and the binned spectrum, on other grids
+    # (same number of bins as the instrument, so that nothing fails on a shape)
+    nat = np.linspace(0.5 * wn.min(), 1.5 * wn.max(), 3 * len(wn) + 1)
+    bwn = np.sort(wn) * 1.0173 + 3.0
+    spec.update({'native_wngrid': nat, 'native_spectrum': 0.02 + 1e-6 * nat, 'native_wlgrid': 10000.0 / nat,
+                 'binned_wngrid': bwn, 'binned_wlgrid': 10000.0 / bwn, 'binned_wnwidth': np.full(len(bwn), 7.5),
+                 'binned_wlwidth': 10000.0 * 7.5 / bwn ** 2, 'binned_spectrum': 0.03 + 1e-6 * bwn})
     with HDF5Output(path) as o:
         out = o.create_group('Output')
         out.store_dictionary(spec, group_name='Spectra')
